@@ -96,7 +96,7 @@ def layout_rust(defs):
     lines = []
     for n, fields in defs["structs"].items():
         ty = "ffi::%s" % n + ("<'static>" if n == "Brw" else "")
-        offs = ", ".join("core::mem::offset_of!(%s, f%d)" % (ty, i) for i in range(len(fields)))
+        offs = ", ".join("core::mem::offset_of!(%s, %s)" % (ty, abisig.fname(i)) for i in range(len(fields)))
         lines.append('    dv_event("RustLayout", "%s", &format!("size={};align={};off={:?}", core::mem::size_of::<%s>(), '
                      'core::mem::align_of::<%s>(), [%s]));' % (n, ty, ty, offs))
     return "#[no_mangle]\npub extern \"C\" fn dv_layouts() {\n" + "\n".join(lines) + "\n}\n"
@@ -107,7 +107,7 @@ def layout_c(defs):
     for n, fields in defs["structs"].items():
         out.append('LB(); L("size=%%zu;align=%%zu;off=[", sizeof(%s), _Alignof(%s));' % (n, n))
         for i in range(len(fields)):
-            out.append('L("%s%%zu", offsetof(%s, f%d));' % (", " if i else "", n, i))
+            out.append('L("%s%%zu", offsetof(%s, %s));' % (", " if i else "", n, abisig.fname(i)))
         out.append('L("]"); LE("CLayout", "%s");' % n)
     return "\n    ".join(out)
 
